@@ -49,15 +49,40 @@ func emitterSites(p *Program) []callSite {
 	rwc := p.Field("Conn.rwc")
 	wfh := p.FuncOpt("writeFrameHeader")
 	var out []callSite
+	// the connection's writer/transport: the fields themselves, writeFrameHeader's parameter, and a parameter of a helper
+	// outside the reference tree that receives one of these at a call site
+	var isSink func(o ssa.Value, depth int) bool
+	isSink = func(o ssa.Value, depth int) bool {
+		if bw != nil && derivesFromField(o, bw) || rwc != nil && derivesFromField(o, rwc) || isParamOf(o, wfh, "w") {
+			return true
+		}
+		if prm, ok := o.(*ssa.Parameter); ok && depth < 4 && prm.Parent() != nil && !knownFuncs[p.rawName(prm.Parent())] {
+			idx := -1
+			for i, x := range prm.Parent().Params {
+				if x == prm {
+					idx = i
+				}
+			}
+			for _, cs := range p.CallersOf(prm.Parent()) {
+				if idx >= 0 && idx < len(cs.Instr.Common().Args) && isSink(cs.Instr.Common().Args[idx], depth+1) {
+					return true
+				}
+			}
+		}
+		return false
+	}
 	for _, cs := range p.CallSites() {
 		cc := cs.Instr.Common()
+		if cs.Callee != nil && p.isLib(cs.Callee) && cs.Callee.Parent() == nil && !knownFuncs[p.rawName(cs.Callee)] {
+			continue // handing the writer to a helper outside the reference tree: the helper's own sites are examined
+		}
 		var ops []ssa.Value
 		if cc.IsInvoke() {
 			ops = append(ops, cc.Value)
 		}
 		ops = append(ops, cc.Args...)
 		for _, o := range ops {
-			if bw != nil && derivesFromField(o, bw) || rwc != nil && derivesFromField(o, rwc) || isParamOf(o, wfh, "w") {
+			if isSink(o, 0) {
 				out = append(out, cs)
 				break
 			}
